@@ -106,6 +106,8 @@ def objCmd (args : List String) : String :=
         match objStep o op with
         | none => ("PANIC" :: acc).reverse
         | some (o', res) =>
+          -- flag `x` (scale histories): the full state only after the last operation
+          if flags.contains 'x' && !rest.isEmpty then go o' rest (res :: acc) else
           let q := if flags.contains 'q' then "#" ++ showQueries o' keys else ""
           let b := if flags.contains 'b' then "#" ++ showBuckets o'.buckets else ""
           go o' rest (s!"{res}#{showEntries o'.entries}#{o'.containsDuplicateKeys}{q}{b}" :: acc)
